@@ -5,7 +5,7 @@ template denotes.
 `denote` is the WXML reading of a template, written without any of the run-time bookkeeping: text renders its value as a
 string, an element carries its evaluated attributes and the denotation of its children, `<block>` contributes only its
 children, a `wx:if` chain contributes the body of the first branch whose condition holds (else the `wx:else` body, else
-nothing), a `wx:for` contributes its body once per (item, index) of the list value, with the two scope variables pushed.
+nothing), a `wx:for` (with or without `wx:key`) contributes its body once per (item, index) of the list value, with the two scope variables pushed.
 `flat` forgets the virtual nodes (`wx:if`, `wx:for`, `wx:for-item`, `<block>`) of the tree that `create`
 (`GE/Model/TagSem.lean`, the model compared with the real compiler + runtime by the `tagsem` stream) builds.
 -/
@@ -40,6 +40,7 @@ def Node.flat : Node V → FNodes V
   | .virt _ ch => ch.flat
   | .ifn _ _ ch => ch.flat
   | .forn _ its => its.flat
+  | .fornK _ _ its => its.flat
 def Nodes.flat : Nodes V → FNodes V
   | .nil => .nil
   | .cons n r => n.flat.append r.flat
@@ -60,6 +61,7 @@ def denote (s : Sem E V T) (D : V) (sc : List V) : Tpl E → FNodes V
   | .block ch => denoteL s D sc ch
   | .cond bs => denoteBr s D sc bs
   | .loop l body => concatItems (fun a x => denoteL s D (sc ++ [a, x]) body) (s.items (s.eval l D sc))
+  | .loopK l _ body => concatItems (fun a x => denoteL s D (sc ++ [a, x]) body) (s.items (s.eval l D sc))
 def denoteL (s : Sem E V T) (D : V) (sc : List V) : Tpls E → FNodes V
   | .nil => .nil
   | .cons t r => (denote s D sc t).append (denoteL s D sc r)
@@ -93,6 +95,9 @@ theorem create_denotes (s : Sem E V T) (now : Nat) (D : V) : ∀ (t : Tpl E) (sc
     simp only [create, Node.flat, denote, branchKey]
     exact createBr_denotes s now D bs sc 1 (by omega)
   | .loop l body, sc => by
+    simp only [create, Node.flat, denote]
+    exact mkItems_flat now _ _ (fun a x => createL_denotes s now D body (sc ++ [a, x])) _
+  | .loopK l key body, sc => by
     simp only [create, Node.flat, denote]
     exact mkItems_flat now _ _ (fun a x => createL_denotes s now D body (sc ++ [a, x])) _
 theorem createL_denotes (s : Sem E V T) (now : Nat) (D : V) : ∀ (ts : Tpls E) (sc : List V), (createL s now D sc ts).flat = denoteL s D sc ts
